@@ -80,6 +80,15 @@ func (o *C19Oracle) AfterAction(s *Sim, a *Action, pre, post *chain.Snapshot, re
 			s.FailT("non-fishman-changed-faults", "", trig, "%s by %s (node=%v, fishman=%v, accused=%s) changed the fault tables", a.Kind, tail(me), isNode, o.fishmen[me], tail(accused))
 		}
 	}
+	// (what) a record that already existed keeps naming the same shard, order, data model and provider
+	for id, f := range fpost {
+		if old, ok := fpre[id]; ok && !reflect.DeepEqual(old, f) {
+			if f.DataId != old.DataId || f.OrderId != old.OrderId || f.ShardId != old.ShardId || f.Provider != old.Provider {
+				s.FailT("fault-record-identity-changed", "", trig, "%s by %s rewrote fault %s: data model %s -> %s, order %d -> %d, shard %d -> %d, provider %s -> %s", a.Kind, tail(me), id,
+					tail(old.DataId), tail(f.DataId), old.OrderId, f.OrderId, old.ShardId, f.ShardId, tail(old.Provider), tail(f.Provider))
+			}
+		}
+	}
 	// (what) newly recorded faults
 	newRec := 0
 	for id, f := range fpost {
@@ -284,6 +293,19 @@ func genFaultMsg(t *rapid.T, s *Sim, o *C19Oracle) *Action {
 			e = FaultEntry{DataId: f.DataId, OrderId: f.OrderId, ShardId: f.ShardId, CommitId: f.CommitId, Provider: s.acctOf(f.Provider)}
 			if ord, ok := sn.Orders[f.OrderId]; ok && rapid.Bool().Draw(t, "matchCommit") {
 				e.CommitId = ord.Commit
+			}
+			if rapid.IntRange(0, 2).Draw(t, "otherOrder") == 0 {
+				// a self-consistent entry for ANOTHER order in which the same provider holds a shard,
+				// carrying the shard id of the recorded fault
+				for _, osh := range shards {
+					if osh.Sp == f.Provider && osh.OrderId != f.OrderId {
+						if oo, ok := sn.Orders[osh.OrderId]; ok {
+							e.OrderId, e.DataId, e.CommitId = oo.Id, oo.DataId, oo.Commit
+							a.Extra["recoverVariant"] = "other-order-same-shard-id"
+							break
+						}
+					}
+				}
 			}
 			if rapid.IntRange(0, 4).Draw(t, "retarget") > 0 {
 				a.Target = e.Provider
